@@ -21,6 +21,8 @@ pub mod physical;
 pub mod planner;
 pub mod storage;
 pub mod tpch;
+#[cfg(qe_verif)]
+pub mod verif;
 
 // Re-export main types
 pub use arrow_ffi::*;
